@@ -15,6 +15,7 @@ func init() { Registry["C20"] = c20 }
 const nodesloPkg = "pkg/slo-controller/nodeslo"
 
 func c20(c *Ctx) {
+	c20alwaysStored(c)
 	c20handlerExclusive(c)
 	c.R.Rule("FRESH(config copy): GetCfgCopy hands out a deep copy of the cached configuration, never the cache's own struct or a shallow copy of it (the strategies inside are pointers)")
 	freshResult(c, c.Fn(nodesloPkg, "SLOCfgHandlerForConfigMapEvent", "GetCfgCopy"), 0, "a node-specific value written into the strategy a reconcile picked lands in the cache and leaks into every other node's NodeSLO")
